@@ -188,7 +188,7 @@ func checkC05(c *Ctx) {
 		}
 		stmtT := p.Named(pkgGorm, "Statement")
 		poolF := p.Field(stmtT, "ConnPool")
-		nFinish := 0
+		nFinish, nIdle := 0, 0
 		for _, pr := range paths {
 			nc := pathCountCalls(info, pr, isCallTo(commitM))
 			nr := pathCountCalls(info, pr, isCallTo(rollbackM))
@@ -213,8 +213,24 @@ func checkC05(c *Ctx) {
 				rc.Check(okp && restored, last.Name(), desc, pr.Exit, "exactly one of Commit (Error == nil) / Rollback (Error != nil), pool restored", "commit/rollback decision is wrong on this path (commits="+itoa(nc)+", rollbacks="+itoa(nr)+", pool restored="+boolStr(restored)+")", "facts: "+strings.Join(pr.Facts.List(), ", "))
 			} else if marker && pr.Facts.Has(fFalse(db+".Config.SkipDefaultTransaction")) {
 				rc.Bad(last.Name(), desc, pr.Exit, "a path with the started-transaction marker present finishes without Commit or Rollback: the implicit transaction stays open", "facts: "+strings.Join(pr.Facts.List(), ", "))
+			} else {
+				// no implicit transaction was finished on this path: the statement's pool is left alone
+				// (inside an explicit transaction it is the user's transaction)
+				touched := false
+				for _, n := range pr.Nodes {
+					if as, ok := n.(*ast.AssignStmt); ok {
+						for _, l := range as.Lhs {
+							if fieldSel(info, l, poolF) {
+								touched = true
+							}
+						}
+					}
+				}
+				nIdle++
+				rc.Check(!touched, last.Name(), "idle "+desc, pr.Exit, "without a finished implicit transaction the statement's pool is not touched", "the statement's pool is reset on a path that finished no implicit transaction: inside an explicit transaction the handle is re-pointed at the connection pool and its next write escapes the transaction", "facts: "+strings.Join(pr.Facts.List(), ", "))
 			}
 		}
+		rc.Check(nIdle >= 1, last.Name(), "idle paths exist", last.Body.Pos(), "paths without marker / with SkipDefaultTransaction", "CommitOrRollbackTransaction has no path that leaves an operation without implicit transaction alone")
 		rc.Check(nFinish >= 2, last.Name(), "commit and rollback paths exist", last.Body.Pos(), "both decisions reachable", "CommitOrRollbackTransaction lacks a commit or a rollback path")
 
 		// BeginTransaction
@@ -566,6 +582,30 @@ func checkC05Errors(c *Ctx, eff map[*ssa.Function]string) {
 	finishers := finisherSet(p)
 	isErr := func(t types.Type) bool { return t.String() == "error" }
 
+	// hook closures: function literals handed to callMethod; their *gorm.DB parameter is the throw-away
+	// hook session, an error recorded there never reaches the operation
+	hookClosures := hookClosureSet(p)
+	onHookSession := func(recv ssa.Value) bool {
+		for depth := 0; depth < 6; depth++ {
+			switch x := recv.(type) {
+			case *ssa.Parameter:
+				return hookClosures[x.Parent()]
+			case *ssa.UnOp:
+				recv = x.X
+			case *ssa.Phi:
+				for _, e := range x.Edges {
+					if pm, ok := e.(*ssa.Parameter); ok && hookClosures[pm.Parent()] {
+						return true
+					}
+				}
+				return false
+			default:
+				return false
+			}
+		}
+		return false
+	}
+
 	// sinkOK: does value v (an error or a *DB carrying one) reach an accepted sink?
 	var sinkOK func(v ssa.Value, depth int, seen map[ssa.Value]bool) bool
 	sinkOK = func(v ssa.Value, depth int, seen map[ssa.Value]bool) bool {
@@ -612,6 +652,10 @@ func checkC05Errors(c *Ctx, eff map[*ssa.Function]string) {
 				}
 				if name == "AddError" || name == "Errorf" || name == "Is" || name == "As" || name == "Join" {
 					if name == "AddError" {
+						// recorded on the operation's handle, not on the hook session
+						if !cc.IsInvoke() && len(cc.Args) > 0 && onHookSession(cc.Args[0]) {
+							continue
+						}
 						return true
 					}
 					if call, ok := ref.(*ssa.Call); ok && sinkOK(call, depth+1, seen) {
@@ -793,4 +837,75 @@ func namedOf(t types.Type) string {
 		return n.Obj().Pkg().Path() + "." + n.Obj().Name()
 	}
 	return ""
+}
+
+
+// hookClosureSet: the function literals passed to callbacks.callMethod.
+func hookClosureSet(p *Program) map[*ssa.Function]bool {
+	out := map[*ssa.Function]bool{}
+	cm := p.SSAFunc(p.FuncDecl(pkgCallbacks, "callMethod").Obj)
+	for _, fn := range p.SSAFuncs() {
+		if fn.Blocks == nil {
+			continue
+		}
+		forEachInstrFlat(fn, func(in ssa.Instruction) {
+			ci, ok := in.(ssa.CallInstruction)
+			if !ok || ci.Common().StaticCallee() != cm {
+				return
+			}
+			for _, a := range ci.Common().Args {
+				switch x := a.(type) {
+				case *ssa.MakeClosure:
+					if f, ok := x.Fn.(*ssa.Function); ok {
+						out[f] = true
+					}
+				case *ssa.Function:
+					out[x] = true
+				}
+			}
+		})
+	}
+	return out
+}
+
+
+// checkIdlePathsKeepPool: CommitOrRollbackTransaction touches the statement's pool only on paths that
+// finished an implicit transaction (shared by C04.pool-kept).
+func checkIdlePathsKeepPool(c *Ctx, r *Rule) {
+	p := c.P
+	f := p.FuncDecl(pkgCallbacks, "CommitOrRollbackTransaction")
+	c.Touch(f)
+	info := f.Pkg.TypesInfo
+	dbT := p.Named(pkgGorm, "DB")
+	commitM, rollbackM := p.Method(dbT, "Commit"), p.Method(dbT, "Rollback")
+	poolF := p.Field(p.Named(pkgGorm, "Statement"), "ConnPool")
+	paths, ok := p.EnumPaths(f, nil, 4096)
+	if !ok {
+		r.Unknown(f.Name(), "paths", f.Body.Pos(), "too many paths")
+	}
+	n := 0
+	for _, pr := range paths {
+		finished := pathCountCalls(info, pr, func(ce *ast.CallExpr) bool {
+			fn, _ := typeutil.Callee(info, ce).(*types.Func)
+			return fn == commitM || fn == rollbackM
+		})
+		if finished > 0 {
+			continue
+		}
+		touched := false
+		for _, nd := range pr.Nodes {
+			if as, ok := nd.(*ast.AssignStmt); ok {
+				for _, l := range as.Lhs {
+					if fieldSel(info, l, poolF) {
+						touched = true
+					}
+				}
+			}
+		}
+		n++
+		r.Check(!touched, f.Name(), "idle path to "+p.Pos(pr.Exit), pr.Exit, "pool untouched when no implicit transaction was finished", "the statement's pool is reset although this operation finished no implicit transaction: inside a Transaction block the handle is re-pointed at the connection pool and its next write is not rolled back with the block")
+	}
+	if n == 0 {
+		r.Bad(f.Name(), "idle paths", f.Body.Pos(), "no path without Commit/Rollback through CommitOrRollbackTransaction")
+	}
 }
